@@ -55,7 +55,10 @@ func AdmitRecord(deps [][]int) Ev {
 	// constructor a retry uses: a record is not admitted either unless its graph is well-formed. A wrongly admitted
 	// cycle can make the constructor's own walk spin for ever: bounded wait, and no further calls after three hangs
 	// (the abandoned goroutines keep a core busy each)
-	if admitRetryHangs < 3 {
+	// Only for small graphs: setupRetry visits a step once per path that leads to it, which is exponential in dense
+	// graphs (a 26-step graph in which every step depends on all earlier ones takes minutes) - slow is not hung, and a
+	// bounded wait could not tell the two apart on the large random graphs.
+	if admitRetryHangs < 3 && len(steps) <= 8 {
 		nodes := make([]*scheduler.Node, len(steps))
 		for i, st := range steps {
 			status := scheduler.NodeStatusCancel
